@@ -196,6 +196,9 @@ class Unit:
                 sp = f.safety_props()
                 if f.paste and f.mode == "exec":
                     obs["%s:%s:overflow" % (self.uname(f), f.qual)] = set(OVERFLOW_PROPS)
+                if f.paste and any(e.get("rule") == "E11" for e in f.paste.get("edits", [])):
+                    # a debug_assert! of the body that can fire makes debug and release builds differ (C17) -- and the operation fail
+                    obs["%s:%s:debug-assert" % (self.uname(f), f.qual)] = {"C17"} | set(sp)
                 if sp:
                     obs["%s:%s:safety" % (self.uname(f), f.qual)] = set(sp)
         return obs
@@ -291,6 +294,8 @@ class Unit:
                 continue
             if cls == "overflow" and f.paste and f.mode == "exec":
                 oid = "%s:%s:overflow" % (self.uname(f), f.qual)
+            elif cls == "precondition" and "verif_debug_assert" in rendered and f.paste:
+                oid = "%s:%s:debug-assert" % (self.uname(f), f.qual)   # rule E11
             else:
                 oid = "%s:%s:safety" % (self.uname(f), f.qual)
             res["failed"].setdefault(oid, []).append(rendered)
